@@ -581,13 +581,28 @@ def _execute_single(scenario, run):
                     run.probes['store_pair_first_stored'] += 1
                 root = bref.decode(RequestDatagram.make_store(nid, _rb(r, 48), _rb(r, 48), port2, _rb(r, 20)).bencode())
                 args = list(root[4])
-                args[0] = r.choice([[7] * 48, [b'a'] * 48, [[1]] * 48, {i: i for i in range(48)}])
+                bad_token = r.random() < 0.4
+                if bad_token:
+                    # a store whose TOKEN is not a 48-byte string (make_store refuses to build one): not a well-formed
+                    # store, it must not store (same sender, so the earlier announcement keeps its port too)
+                    args[1] = r.choice([5, 0, [b't'] * 48, [7] * 48, b'x', b't' * 47, b't' * 49, b'', {}])
+                else:
+                    args[0] = r.choice([[7] * 48, [b'a'] * 48, [[1]] * 48, {i: i for i in range(48)}])
                 root[4] = args
                 run.faults['structural'] += 1
                 run.probes['store_pair_bad_store'] += 1
                 judged[0] += 1
+                ds_before = snapshot(ep.protocol)[2]
+                # the node must be past the 5 minute grace period in which any token is tolerated
+                old_enough = loop.time() - ep.protocol.started_listening_time >= 300
                 if not judge_delivery(run, world.net, ep, bref.encode(root), src, 'struct'):
                     return
+                if bad_token and old_enough:
+                    run.probes['store_pair_bad_token'] += 1
+                    if snapshot(ep.protocol)[2] != ds_before:
+                        run.violation('C17.malformed_store_executed', f'a store from {src} whose token is {args[1]!r:.40} (not a '
+                                      f'48-byte string) changed the stored announcements', what='token')
+                        return
                 run.ev(how, len(held))
                 continue
             if how == 'valid':
